@@ -62,6 +62,46 @@ CLAIMS["C20"] = dict(
    technique="Lean 4 decision over a model regenerated from source by a translator (abstract interpretation of clean-up code) + runtime observation with fault injection",
    design_ref="5/C20")
 
+CLAIMS["C01"] = dict(
+   text="Machine-checked Lean 4 theorems (29) about executable models that follow sha256.c / sha1.c / md5.c / crc32c.c / the HMAC and "
+        "PBKDF2 code statement by statement: for EVERY message and EVERY partition into Update calls (any sizes, including the 64-bit "
+        "bit-count carry) the streaming interface equals the one-shot FIPS 180-4 / RFC 1321 / RFC 3720 specification; the unrolled "
+        "round functions equal the published compression functions; HMAC (keys shorter, equal and longer than the block) equals RFC 2104 "
+        "and PBKDF2 equals RFC 8018 for every password/salt/count/dkLen. Round constants, initial values, tables, shift amounts and the "
+        "bit-count update are re-extracted from the source on every run and proved equal to the standards' by kernel evaluation; the "
+        "model is run in lock-step with the real code (digest = Spec at L1; state words, count and buffer at L2) on generated update "
+        "partitions around every block/padding boundary, long PBKDF2 outputs and the published vectors.",
+   note=PROOF_NOTE + "Assumptions: messages < 2^64 bits; PBKDF2 c >= 1 and dkLen <= 32*(2^32-1) (asserted by the C); portable code paths "
+        "(the accelerated paths are C03's). memcpy is modelled on lists; uninitialised scratch starts as zeros in the model; wiping is C20's subject. "
+        "A wrong bit-count only shows for a single update of >= 512 MiB: tied by the extractor's comparison and a white-box counter op, not by a run of that size.",
+   technique=None, design_ref="5/C01, 12.2")
+
+CLAIMS["C04"] = dict(
+   text="Machine-checked Lean 4 theorems about an executable model that follows events.c / events_network.c / events_immediate.c / "
+        "events_timer.c statement by statement (socket table, pollfd array with move-last compaction, fdscanpos, 32 immediate queues, "
+        "timer queue = the proved C13 heap model): the six documented invariants are inductive and exclude every out-of-bounds access, "
+        "and for EVERY program of register/cancel/reset calls issued from outside and from inside callbacks, crossed with EVERY "
+        "environment (readiness, ERR/HUP, clock advance, EINTR), the trace of the model is accepted by the executable C04 specification "
+        "monitor (callback at most once per registration, never after cancel, socket only after a reported readiness or current ERR/HUP, "
+        "timer never early) - closed over the proved timer-queue contract (run_admissible_C04_closed). Tie: the same monitor judges the "
+        "real event loop's trace on every run (scripted poll and clock via --wrap) and the whole state is compared with the model after every op.",
+   note=PROOF_NOTE + "Partial: events_interrupt from a signal handler is modelled only at program points and at a blocked poll; events_spin "
+        "(a loop around the same function) is not driven; allocation failure is C14's; POLLNVAL is asserted away by the C.",
+   technique=None, design_ref="5/C04, 12.2")
+
+CLAIMS["C05"] = dict(
+   text="Machine-checked Lean 4 theorems about the same executable model of the event loop as C04: the 32 immediate queues with minq "
+        "refine one stable priority queue (lowest priority number first, FIFO within a priority, re-registration from a callback goes "
+        "to the tail); the poll timeout is the ceiling in ms of the time to the nearest timer, recomputed from the remaining time after "
+        "EINTR (the F11 repair); and for EVERY program and environment the model's trace is accepted by the executable C05 monitor "
+        "(a pending immediate before any ready socket before any expired timer; timers in deadline order; a call that starts with "
+        "something runnable runs a callback, otherwise blocks no longer than the earliest deadline and runs what woke it; the first "
+        "non-zero status or an interrupt request stops dispatching and events not yet run stay registered), closed over the proved timer-queue contract. Tie: the monitor judges the real event loop's trace "
+        "on every run and the whole state is compared with the model after every op, including EINTR sequences with time passing.",
+   note=PROOF_NOTE + "Partial: a signal arriving at an arbitrary instruction is modelled only at program points and at a blocked poll; "
+        "events_spin is not driven; allocation failure is C14's.",
+   technique=None, design_ref="5/C05, 12.2")
+
 PENDING = "check not built yet in this round (see DESIGN.md section 5 for the plan); nothing is claimed for it"
 
 TECHNIQUE = {
@@ -96,7 +136,9 @@ def from_notes(pid):
         head, _, body = sec.partition("\n")
         if "MANIFEST" in head.upper() and level is None:
             level = " ".join(body.strip().strip('"`').split())
+            level = re.sub(r"^category\s+[`\"]*proof[`\"]*[.;]?\s*(text:)?\s*", "", level)
             level = re.sub(r"^[`\"]*proof[`\"]*\s*[—-]+\s*", "", level)
+            level = level.strip('"`')
         if re.search(r"trusted|not verified|not covered|modelled rather", head, re.I) and trusted is None:
             trusted = " ".join(body.strip().split())
     if not level:
@@ -124,7 +166,7 @@ def main():
                 "engine": "percival-lean",
                 "level_claimed": {"category": c.get("category", "proof"), "text": c["text"], "design_ref": c["design_ref"]},
                 "level_note": c["note"],
-                "technique": c["technique"],
+                "technique": c["technique"] or TECHNIQUE[pid],
             })
         else:
             na.append({"property_id": pid, "reason": CLAIMS.get(pid, {}).get("na", PENDING)})
